@@ -201,6 +201,7 @@ func c03Sweep(t *testing.T, name string, fat bool, reals ...bool) {
 			in.close()
 		}
 		// learn the trace of the main round
+		cancelAt := 0 // when > 0, the sequencing context is cancelled before the cancelAt-th operation of the main round
 		runMain := func(st *simSys, faults []simFault) (*simRoundResult, *simSys) {
 			c := st.clone(newDir())
 			c.activate()
@@ -218,7 +219,20 @@ func c03Sweep(t *testing.T, name string, fat bool, reals ...bool) {
 				id++
 			}
 			c.w.clock += 1234
-			res := c.round(in, faults)
+			ctx, cancel := context.WithCancel(context.Background())
+			defer cancel()
+			if cancelAt > 0 {
+				count := 0
+				c.w.yield = func(p *simProc, op *simOp) {
+					if p == in.p && p.phase == "round" {
+						if count++; count == cancelAt {
+							cancel()
+						}
+					}
+				}
+			}
+			res := c.roundCtx(ctx, in, faults)
+			c.w.yield = nil
 			if !res.Crashed {
 				in.close()
 			}
@@ -273,6 +287,27 @@ func c03Sweep(t *testing.T, name string, fat bool, reals ...bool) {
 				rec.Add("failed-operations-in-round-fatal", 1)
 			}
 			sweepRecovery(st, "ROUND failed operation at ["+pt.Desc+"], then the process died", nextID+sc.Main, 1, sc.Main > 0)
+		}
+		// the process is told to stop while the round is under way: the sequencing context is cancelled before one of
+		// the round's operations (the object store itself does not look at the context), the round ends whichever
+		// way it ends, the process exits, and the recovery is swept
+		nops := len(simPhaseOps(res0.Ops))
+		cstride := 2
+		if vfstat.Thorough() {
+			cstride = 1
+		}
+		if fat || real {
+			cstride = 4
+		}
+		for k := 1 + int(rnd()%uint64(cstride)); k <= nops; k += cstride {
+			cancelAt = k
+			res, st := runMain(base, nil)
+			cancelAt = 0
+			if res.Crashed {
+				continue
+			}
+			rec.Add("rounds-with-cancelled-context", 1)
+			sweepRecovery(st, fmt.Sprintf("ROUND sequencing context cancelled before operation %d of %d, then the process exited", k, nops), nextID+sc.Main, 1, sc.Main > 0)
 		}
 		rec.Add("executions", int64(execs))
 	})
